@@ -1000,7 +1000,7 @@ PROPS = {
                      "Keto.C11_parse_accepts_iff", "Keto.C11_parse_rejects", "Keto.C11_src_permission", "Keto.C11_src_type_union",
                      "Keto.C11_src_relation_decl", "Keto.C11_checks_cover", "Keto.C11_parse_typeOk", "Keto.C11_accepted_wellFormed",
                      "Keto.C11_forward_typed", "Keto.C11_forward_parse", "Keto.C11_plainTraversals_needed"],
-        "streams": [{"name": "opl", "n": {"quick": 3000, "thorough": 20000}, "oracle": oracle_c11_converse, "thorough_seeds": 3, "env": {"VERIF_OPL_WATCHDOG_MS": "20000"}}, {"name": "engine-c11", "n": {"quick": 200, "thorough": 2500}, "oracle": oracle_c11, "thorough_seeds": 3}],
+        "streams": [{"name": "opl", "n": {"quick": 3000, "thorough": 20000}, "oracle": oracle_c11_converse, "thorough_seeds": 3, "env": {"VERIF_OPL_WATCHDOG_MS": "20000"}}, {"name": "engine-c11", "n": {"quick": 200, "thorough": 1200}, "oracle": oracle_c11, "thorough_seeds": 2}],
         "rule": ENGINE_RULE + "; stores conform to the declared types; judged = configuration accepted by the real OPL type checker, conforming store, query on a declared relation",
         "partial": "forward direction: for every byte string the parser model accepts, TypeOk holds; TypeOk + PlainTraversals (traversed relations have only plain-namespace types) + conforming store give WellFormed, hence no schema error for any check (C11_forward_parse); without PlainTraversals the statement is false (C11_plainTraversals_needed = known finding F-ttu-type); converse: every failing deferred check yields an error at the offending token, acceptance iff all checks hold (C11_tc_accepts_iff)",
         "assumptions": [],
@@ -1026,7 +1026,7 @@ PROPS = {
                      "Keto.C03_and_error_not_member", "Keto.C03_error_never_member", "Keto.C03_checkIsMember_true",
                      "Keto.C03_fault_answer_exact_all", "Keto.C03_fault_independent_all",
                      "Keto.build_err_not_member"],
-        "streams": [{"name": "engine-c03", "n": {"quick": 150, "thorough": 1500}, "oracle": oracle_c03, "thorough_seeds": 3}],
+        "streams": [{"name": "engine-c03", "n": {"quick": 150, "thorough": 500}, "oracle": oracle_c03, "thorough_seeds": 2}],
         "rule": ENGINE_RULE + "; for every generated case the k-th storage call fails for every k up to min(N,14), transiently and persistently; and each case is re-run with one stored row at a time made undecodable, so that the queries that fetch it fail while rows are scanned (a fault below the Manager/Traverser interface)",
         "partial": "",
         "assumptions": [],
@@ -1043,7 +1043,7 @@ PROPS = {
                      "Keto.C01_depth_sites_tie", "Keto.C01_sound_pos", "Keto.build_sound", "Keto.Cfg.pos_of_posB",
                      "Keto.C01_complete_pos_general", "Keto.C01_exact_pos_general", "Keto.C01_complete_pos", "Keto.C01_exact_pos",
                      "Keto.C01_complete_pos_strict", "Keto.C01_complete_norewrite", "Keto.C01_complete_strict_counterexample"],
-        "streams": [{"name": "engine-c01", "n": {"quick": 250, "thorough": 3000}, "oracle": oracle_c01, "thorough_seeds": 3},
+        "streams": [{"name": "engine-c01", "n": {"quick": 250, "thorough": 1000}, "oracle": oracle_c01, "thorough_seeds": 2},
                     {"name": "engine-wide", "n": {"quick": 10, "thorough": 80}, "oracle": oracle_c01, "thorough_seeds": 2}],
         "rule": ENGINE_RULE,
         "partial": "exactness of the engine model is proved for ALL configurations, '!' included (C01_exact_all: no error and no limit event anywhere in the run imply isMember iff Tr, otherwise Fa; Tr/Fa = the stratified semantics of Keto/Spec/Stratified.lean, proved mutually exclusive, equal to Mem on the positive fragment), in default mode and in strict mode on stores that conform to the declared types; the executable reference evaluator used as run-time oracle is proved sound and complete against the same semantics (refEval_decides) and the engine model is proved to agree with it whenever it answers (C01_exact_all_refEval); on non-stratified instances (p = !p) neither Tr nor Fa holds and the engine cannot finish without error or limit event (C01_open_not_answered). What remains sampled, not proved: that the Go code is the model (correspondence streams), and goroutine schedules - the sequential checkgroup semantics is proved to be what the concurrent group computes (C15_cg_*), and every fourth case also runs with the real concurrent group",
@@ -1052,7 +1052,7 @@ PROPS = {
     "C02": {
         "lean_module": "Keto.Props.C02",
         "theorems": ["Keto.C02_effDepth_bounds", "Keto.C02_clamp", "Keto.C02_clamp_explicit", "Keto.C02_fail_closed_pos"],
-        "streams": [{"name": "engine-c02", "n": {"quick": 40, "thorough": 500}, "oracle": oracle_c02, "thorough_seeds": 3},
+        "streams": [{"name": "engine-c02", "n": {"quick": 40, "thorough": 150}, "oracle": oracle_c02, "thorough_seeds": 2},
                     {"name": "hcheck", "n": {"quick": 300, "thorough": 3000}, "oracle": oracle_c02_transports, "thorough_seeds": 2}],
         "rule": ENGINE_RULE + "; every stored state is checked over a grid of (request depth, global depth, width); stream hcheck (see C08): "
                 "the request depth through every transport under global limits 3, 5, 7, 8",
